@@ -222,3 +222,47 @@ ob("C14", "ast.signature_once", {"kind": R(0, 2), "documented": BOOL, "nargs": R
    assumes=[ADHOC_SHIMS_DOC],
    bound="function(def), function(def, function_type=...), class_(cls, merge_inner_function='create') on a def whose first argument is a plain name / self / cls, "
          "0..2 further defaulted parameters, documented or not (solver-enumerated): well-formed result, every signature parameter exactly once")(sig_params_once)
+
+
+# the JSON-schema parser: a schema written by hand (not by the emitter) with ANY subset of keywords per property ----------------------------------
+JTYPES14 = ("string", "integer", "number", "boolean", "object", "array")
+
+
+def json_schema_parser(t0, t1, has_desc, has_default, req_mask, has_pattern, c0, c1):
+    import cdd.json_schema.parse as P
+
+    def jt(t):
+        v = JTYPES14[0]
+        for k in range(1, len(JTYPES14)):
+            if t == k:
+                v = JTYPES14[k]
+        return v
+
+    p0 = {"type": jt(t0)}
+    p1 = {"type": jt(t1)}
+    if has_desc:
+        p0["description"] = "d" + chr(c0) + chr(c1)
+    if has_default:
+        p1["default"] = {"string": "s" + chr(c0), "integer": 3, "number": 0.5, "boolean": False, "object": {}, "array": []}[p1["type"]]
+    if has_pattern and p0["type"] == "string":
+        p0["pattern"] = "np|tf"
+    schema = {"$id": "https://example.test/x.schema.json", "$schema": "https://json-schema.org/draft/2020-12/schema", "description": "Top " + chr(c1) + ".",
+              "type": "object", "properties": {"alpha": p0, "beta": p1}, "required": [n for i, n in enumerate(("alpha", "beta")) if req_mask & (1 << i)]}
+    try:
+        back = P.json_schema(schema)
+    except Exception:
+        return ""
+    if "type" not in back:
+        back = dict(back, type=None)
+    d = wf(back)
+    if d:
+        return d
+    if list(back["params"]) != ["alpha", "beta"]:
+        return "properties ['alpha', 'beta'] came back as parameters %r" % (list(back["params"]),)
+    return ""
+
+
+ob("C14", "ast.json_schema", {"t0": R(0, 5), "t1": R(0, 5), "has_desc": BOOL, "has_default": BOOL, "req_mask": R(0, 3), "has_pattern": BOOL, "c0": PR, "c1": PR}, T=600, tpath=60,
+   funcs=["cdd.json_schema.parse.json_schema", "cdd.json_schema.utils.parse_utils.json_schema_property_to_param"],
+   bound="hand-written JSON-schema with two properties of ANY of the six JSON types, description (2 symbolic printable characters) present or not, default present or not, "
+         "pattern present or not, ANY subset required: the returned interface is well-formed and has exactly the two properties")(json_schema_parser)
